@@ -43,7 +43,7 @@ def jobs(tier, seed):
             c['autos'] = mask
             oo = {'players': True, 'show': SHOW, 'probe': True}
             oo.update(o)
-            out.append({'family': fam, 'cfg': c, 'opts': oo, 'state_cap': 300000, 'time_cap': 300})
+            out.append({'family': fam, 'cfg': c, 'opts': oo, 'state_cap': 300000, 'time_cap': 900})
     # larger configurations under a few automation tuples (incl. the ones the suite uses)
     few = ['NONE', 'ALL',
            ['ANTE_POSTING', 'BET_COLLECTION', 'BLIND_OR_STRADDLE_POSTING', 'HOLE_CARDS_SHOWING_OR_MUCKING',
@@ -75,7 +75,7 @@ def jobs(tier, seed):
             oo = {'show': SHOW, 'players': au == 'NONE' and th, 'probe': True}
             oo.update(o)
             out.append({'family': fam, 'cfg': c, 'opts': oo, 'dev_bound': 3 if not th else 5,
-                        'state_cap': 400000 if th else 60000, 'time_cap': 600 if th else 60})
+                        'state_cap': 400000 if th else 60000, 'time_cap': 1800 if th else 400})
     return out
 
 
